@@ -1252,7 +1252,7 @@ pub fn norm_entry(a: &AbsResp) -> AbsResp {
 pub const ALL_KINDS: [Kind; 5] = [
     Kind::MEM_LIB,
     Kind::SQL_LIB,
-    Kind { backend: Backend::Sqlite, entry: Entry::Lib, reopen_pct: 30 },
+    Kind { backend: Backend::Sqlite, entry: Entry::Lib, reopen_pct: 30, socket: false },
     Kind::MEM_HTTP,
     Kind::SQL_HTTP,
 ];
